@@ -15,7 +15,8 @@ package main
 //                                                                        `defer X.Unlock()` keeps the lock to the end)
 //        O:<once>  inside the body passed to <once>.Do                   A:<once>  after <once>.Do(...) returned
 //     an "init-like" function (configured below: openapi.initSchema — lock; if !flag { flag = true; parse... })
-//     is treated like a once object named after the function: O:<func> inside it (and in what it calls),
+//     is treated like a once object named after the function: O:<func> from the point where it takes a global
+//     lock (and in what it calls from there on),
 //     A:<func> after a call to it returned. That the flag is never cleared is a separate side condition:
 //     the value stored is recorded for constant stores so that the Coq obligation can list the "reset sites";
 //     joins are intersections; the entry context of a function is the intersection of the contexts of
@@ -241,6 +242,11 @@ func (ga *globalsAnalysis) transfer(ctx tokset, ins ssa.Instruction) {
 		switch m {
 		case "Lock":
 			ctx["W:"+obj] = true
+			// inside an init-like function the once-like body starts where the lock is taken: an access before
+			// that point (e.g. an unlocked fast-path check of the flag) gets no O: token
+			if id, ok := ga.initLike[ins.Parent()]; ok {
+				ctx["O:"+id] = true
+			}
 		case "RLock":
 			ctx["R:"+obj] = true
 		case "Unlock":
@@ -552,67 +558,6 @@ func genGlobals(repo string) (string, error) {
 			ga.entry[f] = tokset{}
 		}
 	}
-	// propagate "inside the init-like function" to it and to what it calls: one more round of the same
-	// fixpoint with O:<id> injected at the entry of the init-like functions
-	for iter := 0; iter < 50; iter++ {
-		changed := false
-		for f, id := range ga.initLike {
-			if !ga.entry[f]["O:"+id] {
-				ga.entry[f] = ga.entry[f].clone()
-				ga.entry[f]["O:"+id] = true
-				changed = true
-			}
-		}
-		site := map[ssa.Instruction]tokset{}
-		for _, f := range ga.funcs {
-			ga.flow(f, ga.entry[f], func(ins ssa.Instruction, ctx tokset) {
-				switch ins.(type) {
-				case *ssa.Call:
-					site[ins] = ctx.clone()
-				}
-			})
-		}
-		for _, f := range ga.funcs {
-			if ga.foreignIn[f] || !ga.reach[f] || len(ga.callers[f]) == 0 {
-				continue
-			}
-			if _, isInit := ga.initLike[f]; isInit {
-				continue
-			}
-			if _, isOnce := ga.onceBody[f]; isOnce {
-				continue
-			}
-			var acc tokset
-			all := true
-			for _, cs := range ga.callers[f] {
-				c, ok := site[cs.instr]
-				if !ok {
-					all = false
-					break
-				}
-				if acc == nil {
-					acc = c.clone()
-				} else {
-					acc = intersect(acc, c)
-				}
-			}
-			if !all || acc == nil {
-				continue
-			}
-			// only the O: tokens of init-like functions are added here
-			for k := range acc {
-				if strings.HasPrefix(k, "O:") && !ga.entry[f][k] {
-					ga.entry[f] = ga.entry[f].clone()
-					ga.entry[f][k] = true
-					changed = true
-				}
-			}
-		}
-		if !changed {
-			break
-		}
-	}
-
 	// ---- which globals are mutable
 	type gkey struct{ pkg, name string }
 	mutable := map[gkey]bool{}
